@@ -410,6 +410,15 @@ def shard_options(ctx, arg):
 
 def run(ctx):
     quick = ctx.tier == "quick"
+    # every flag word first goes through the sibling class CommandOption (for which only the name-preference bits
+    # matter), in this process, before the workers are forked: what one class accepted must not decide for another
+    from clikit.api.args.format import CommandOption
+
+    for w in range(1 << 13):
+        try:
+            CommandOption("name", "s", [], w)
+        except ValueError:
+            pass
     ctx.parallel("shard_options", [(i * 512, (i + 1) * 512) for i in range(16)])
     ctx.exhaustive("option-flags", True, "2^13 flag words x short given/absent x %d default kinds (none, truthy scalar/list, 0, 0.0, False, empty string/list)" % len(DEFAULT_KINDS))
     for w in range(2048):
